@@ -31,6 +31,7 @@ import Sudachi.Model.BuildLoad
 import Sudachi.Model.RecycleIO
 import Sudachi.Model.Total
 import Sudachi.Model.TotalIO
+import Sudachi.Model.Stages
 /-! Line protocol dispatcher: one case per line in, one answer per line out. -/
 namespace Driver
 
@@ -40,7 +41,8 @@ def answer (line : String) : String :=
   | p :: op :: rest =>
     match String.ofList p with
     | "C01" => if String.ofList op == "morph" then EditM.handleMorph rest
-               else if String.ofList op == "part" then Total.handlePart rest else EditM.handle rest
+               else if String.ofList op == "part" then Total.handlePart rest
+               else if String.ofList op == "stages" then Stages.handle rest else EditM.handle rest
     | "C17" => CharCat.handle rest
     | "C08" => if op = "morphc".toList then EditAcc.handleMorphA rest
                else if op = "acc".toList then EditAcc.handleAcc rest
